@@ -78,11 +78,53 @@ func (p *Pkg) classify(bv BV) (Reader, bool) {
 func (p *Pkg) readersIn(n ast.Node) []Reader {
 	var out []Reader
 	env := newBvEnv(p)
+	// byte aliases: `u1 := c.u1` (never reassigned) stands for the byte itself;
+	// what is then extracted from the alias is the read
+	aliasDef := map[ast.Stmt]bool{}
+	ast.Inspect(n, func(x ast.Node) bool {
+		as, ok := x.(*ast.AssignStmt)
+		if !ok || as.Tok != token.DEFINE || len(as.Lhs) != len(as.Rhs) {
+			return true
+		}
+		all := true
+		for i := range as.Lhs {
+			o := identObj(p.Info, as.Lhs[i])
+			if _, _, isField := p.fieldOf(as.Rhs[i]); !isField || o == nil || !isUint8(o.Type()) || assignedIn(p.Info, n, o) {
+				all = false
+			}
+		}
+		if all {
+			aliasDef[as] = true
+			for i := range as.Lhs {
+				idx, _, _ := p.fieldOf(as.Rhs[i])
+				env.locals[identObj(p.Info, as.Lhs[i])] = bvIn(idx)
+			}
+		}
+		return true
+	})
+	mentionsBits := func(e ast.Expr) bool {
+		if p.containsObjField(e) {
+			return true
+		}
+		found := false
+		ast.Inspect(e, func(y ast.Node) bool {
+			if id, ok := y.(*ast.Ident); ok {
+				if _, ok := env.locals[identObj(p.Info, id)]; ok {
+					found = true
+				}
+			}
+			return !found
+		})
+		return found
+	}
 	var path []ast.Node
 	var visit func(x ast.Node) bool
 	visit = func(x ast.Node) bool {
 		if x == nil {
 			path = path[:len(path)-1]
+			return false
+		}
+		if st, ok := x.(ast.Stmt); ok && aliasDef[st] {
 			return false
 		}
 		path = append(path, x)
@@ -91,7 +133,7 @@ func (p *Pkg) readersIn(n ast.Node) []Reader {
 			return true
 		}
 		tv, ok := p.Info.Types[e]
-		if !ok || !isUint8(tv.Type) || !p.containsObjField(e) {
+		if !ok || !isUint8(tv.Type) || !mentionsBits(e) {
 			return true
 		}
 		bv, err := env.eval(e)
